@@ -83,4 +83,4 @@ Definition run_d (c : case) : obs :=
             o_reser := None |}
   end.
 
-Definition check_d (x : case * obs) : bool := obs_eqb (run_d (fst x)) (snd x).
+Definition check_d (x : case * obs) : bool := obs_eqb (c_names (fst x)) (run_d (fst x)) (snd x).
